@@ -100,4 +100,23 @@ let () =
            Printf.sprintf "vps=1 total=%d |" (List.length cores)
            ^ String.concat "" (List.map (fun c -> Printf.sprintf " %d:ok" (int_of_z c)) cores))
       | _ -> "<bad case>" end
+    else if String.length line > 3 && String.sub line 0 3 = "hw " then begin
+      (* hw S C nb sing: parsec_vpmap_init("hwloc", nb) on the synthetic machine pack:S core:C pu:1 *)
+      match words line with
+      | [_; s_; c; nb; sing] ->
+        let s_ = int_of_string s_ and c = int_of_string c in
+        show_outcome (hwloc_map (List.init s_ (fun _ -> z_of_int c)) (z_of_int (s_ * c)) (zi sing) (zi nb))
+      | _ -> "<bad case>" end
+    else if String.length line > 4 && String.sub line 0 4 = "phw " then begin
+      (* phw S C nb: the same through parsec_init (which caps nb at the number of cores), counts only *)
+      match words line with
+      | [_; s_; c; nb] ->
+        let s_ = int_of_string s_ and c = int_of_string c in
+        let r = z_of_int (s_ * c) in
+        (match hwloc_map (List.init s_ (fun _ -> z_of_int c)) r (z_of_int 0) (init_nb r (zi nb)) with
+         | Map (n, _, vps) ->
+           Printf.sprintf "ctx_vps=%d" (int_of_z n)
+           ^ String.concat "" (List.map (fun ths -> Printf.sprintf " | %d/%d" (List.length ths) (List.length ths)) vps)
+         | o -> show_outcome o)
+      | _ -> "<bad case>" end
     else "<bad case>")
